@@ -150,7 +150,7 @@ extern "C" int epoll_wait(int epfd, struct epoll_event* ev, int maxev, int timeo
 #endif
 }
 
-static const int kWatchdogMs = 30000;   // an order of magnitude above anything observed (a step takes < 1 ms)
+static const int kWatchdogMs = 15000;   // an order of magnitude above anything observed (a step takes < 1 ms)
 static const int kKernelMs = 10000;
 
 // Watchdog: a thread on the REAL clock. If one op keeps the I/O thread away from epoll_wait for kWatchdogMs, the engine hangs.
@@ -304,7 +304,7 @@ typedef ssize_t (*send_t)(int, const void*, size_t, int);
 static sendto_t realSendto() { static sendto_t f = (sendto_t)dlsym(RTLD_NEXT, "sendto"); return f; }
 static send_t realSend() { static send_t f = (send_t)dlsym(RTLD_NEXT, "send"); return f; }
 
-static int scripted(const void* buf, size_t n)   // 0 forward, 1 EAGAIN, 2 error
+static int scripted(int fd, const void* buf, size_t n)   // 0 forward, 1 EAGAIN, 2 error
 {
   ++g_sendCalls;
   char a = 0;
@@ -319,7 +319,11 @@ static int scripted(const void* buf, size_t n)   // 0 forward, 1 EAGAIN, 2 error
     if (!g_script.empty()) { a = g_script.front(); g_script.pop_front(); }
     else { a = 'o'; ++g_unkeyed; }
   }
-  if (n > 65507) return 0;   // the kernel checks the size before anything else (EMSGSIZE): let it say so itself
+  // the kernel checks the size before anything else (EMSGSIZE; the limit is 65507 on an IPv4 socket, 65527 on an IPv6 one): let it say so itself
+  sockaddr_storage me{}; socklen_t ml = sizeof(me);
+  size_t limit = 65507;
+  if (getsockname(fd, reinterpret_cast<sockaddr*>(&me), &ml) == 0 && me.ss_family == AF_INET6) limit = 65527;
+  if (n > limit) return 0;
   if (a == 'e') { ++g_injectedEagain; return 1; }
   if (a == 'x') { ++g_injectedErr; return 2; }
   return 0;
@@ -329,7 +333,7 @@ extern "C" ssize_t sendto(int fd, const void* buf, size_t n, int flags, const st
 {
   bool engine = g_stepA.load(std::memory_order_acquire) && !pthread_equal(pthread_self(), g_main);
   if (!engine) return realSendto()(fd, buf, n, flags, to, tl);
-  int a = scripted(buf, n);
+  int a = scripted(fd, buf, n);
   if (a == 1) { errno = EAGAIN; return -1; }
   if (a == 2) { errno = EPERM; return -1; }
   ssize_t r = realSendto()(fd, buf, n, flags, to, tl);     // the engine's own flags go to the kernel untouched
@@ -347,7 +351,7 @@ extern "C" ssize_t send(int fd, const void* buf, size_t n, int flags)
 {
   bool engine = g_stepA.load(std::memory_order_acquire) && !pthread_equal(pthread_self(), g_main);
   if (!engine) return realSend()(fd, buf, n, flags);
-  int a = scripted(buf, n);
+  int a = scripted(fd, buf, n);
   if (a == 1) { errno = EAGAIN; return -1; }
   if (a == 2) { errno = EPERM; return -1; }
   ssize_t r = realSend()(fd, buf, n, flags);
@@ -527,7 +531,8 @@ static std::string collect()
     {
       // the kernel accepted the datagram, so it is normally already queued; wait generously the first time one is missing, then
       // (a broken tree, e.g. a corked socket, loses every one of them) only briefly, then not at all: bounded work
-      int waitMs = g_lost == 0 ? kKernelMs : g_lost < 8 ? 200 : 0;
+      static const bool fast = std::getenv("C06_FAST_LOSS") != nullptr;       // re-runs of an already failing case
+      int waitMs = g_lost == 0 ? (fast ? 400 : 3000) : g_lost < 8 ? 200 : 0;
       pollfd p{fd, POLLIN, 0};
       if (poll(&p, 1, waitMs) <= 0) { ++g_lost; break; }
       sockaddr_storage from{}; socklen_t fl = sizeof(from);
@@ -554,7 +559,10 @@ static std::string collect()
     }
     flushCloses();
     auto& q = receipts[e.destKey];
+    // self-test of the "did it reproduce?" path: report ONE received datagram as lost, only in the main run (not in re-runs)
+    static bool fakeLost = std::getenv("C06_SELFTEST_FAKE_LOST_ONCE") != nullptr && std::getenv("C06_FAST_LOSS") == nullptr;
     if (q.empty()) out.push_back("S?lost>" + peerName(e.destKey));
+    else if (fakeLost) { fakeLost = false; out.push_back("S?lost>" + peerName(e.destKey)); q.pop_front(); }
     else { out.push_back(q.front()); q.pop_front(); }
   }
   flushCloses();
@@ -685,7 +693,21 @@ static std::string doReset(const std::vector<std::string>& t)
   W.eng = std::make_unique<UdpEngine>(cfg);
   iora::network::detail::EngineBase::Callbacks cbs;
   cbs.onAccept = [](SessionId s, const TransportAddress& a) { Ev e; e.text = "A" + std::to_string(s) + "@" + peerNameOf(a); g_log.push_back(e); };
-  cbs.onConnect = [](SessionId s, const TransportAddress& a) { Ev e; e.text = "N" + std::to_string(s) + "@" + peerNameOf(a); g_log.push_back(e); };
+  cbs.onConnect = [](SessionId s, const TransportAddress& a) {
+    Ev e; e.text = "N" + std::to_string(s) + "@" + peerNameOf(a); g_log.push_back(e);
+    // a client session's own socket: remember its local address now (the session may be closed later in the same batch). We are on the
+    // I/O thread, connectDo holds no lock while it runs the callback.
+    auto it = W.eng->_sessions.find(s);
+    if (it != W.eng->_sessions.end() && it->second && it->second->role == iora::network::Role::ClientConnected)
+    {
+      sockaddr_storage ss{}; socklen_t sl = sizeof(ss);
+      if (getsockname(it->second->fd, reinterpret_cast<sockaddr*>(&ss), &sl) == 0)
+      {
+        W.srcName[addrKey(reinterpret_cast<sockaddr*>(&ss))] = "C" + std::to_string(s);
+        auto pk = g_keyToPeer.find(a.host + ":" + std::to_string(a.port));
+        if (pk != g_keyToPeer.end()) W.clientPeer[s] = pk->second;
+      }
+    } };
   cbs.onData = [](SessionId s, iora::core::BufferView d, std::chrono::steady_clock::time_point) {
     Ev e; e.text = "D" + std::to_string(s) + ":" + std::to_string(d.size()) + ":" + std::to_string(crc32(reinterpret_cast<const std::uint8_t*>(d.data()), d.size()));
     g_log.push_back(e); };
@@ -923,6 +945,11 @@ static std::string step(const std::vector<std::string>& t)
       {
         if (haveCmds) return "bad-op";
         haveCmds = true;
+        // connect()/connectViaListener() allocate the session id at the CALL; the model allocates when the command is processed. The two
+        // agree as long as nothing is accepted in between, so a command event that allocates ids must be the first event of its batch.
+        bool allocates = false;
+        for (auto& x : ev) if (x == "connect" || x == "via") allocates = true;
+        if (allocates && !evs.empty()) return "bad-op";
         for (auto& c : splitToks(ev, 1, "/"))
         {
           std::string r = enqueueCmd(c);
